@@ -115,7 +115,20 @@ pub fn exec(f: &[&str]) -> Option<String> {
             if !sj_eq(&j, &jt, 0) { return Some("bytes and tree convert differently".into()); }
             let text = jsonb::to_string(&doc);
             let strict: J = match serde_json::from_str(&text) { Ok(x) => x, Err(_) => return Some("strict parser rejects the rendering".into()) };
-            if !sj_eq(&j, &strict, 1) { return Some("conversion differs from what the strict parser reads".into()); }
+            // structure, strings, member sets, integer kinds against serde_json's own reading of the
+            // text (its float reader can be several ulps off: loose there), floats exactly against
+            // std's correctly rounded reading of every float literal of the text
+            if !sj_eq(&j, &strict, 64) { return Some("conversion differs from what the strict parser reads".into()); }
+            fn sj_floats(j: &J, out: &mut Vec<u64>) {
+                match j {
+                    J::Number(n) => if n.is_f64() { out.push(n.as_f64().unwrap().to_bits()); },
+                    J::Array(a) => a.iter().for_each(|x| sj_floats(x, out)),
+                    J::Object(o) => o.values().for_each(|x| sj_floats(x, out)),
+                    _ => {}
+                }
+            }
+            let mut fl = vec![]; sj_floats(&j, &mut fl);
+            if crate::ops_text::float_tokens(&text) != fl { return Some("a converted float is not the (correctly rounded) double its literal in the rendering denotes".into()); }
             let back: Value = (&j).into();
             if back != v { return Some("converting back is not equal to the original".into()); }
             let again: J = back.into();
